@@ -10,6 +10,9 @@ CONSTANTS
   SidecarNextSeq = TRUE
   LineageLocked = FALSE
   SecondInput = TRUE
+  Tasks = {}
+  TaskGuarded = TRUE
+  Cold = FALSE
   Guarded = FALSE
   OpOf <- OpOfC
 INVARIANT Emit
